@@ -3,5 +3,5 @@ EXTENDS KVRange, KVRangeCases
 
 AllClaims == \A i \in 1..Len(Cases) : DeleteRangeClaims(Cases[i])
 
-Emit == PrintT(ToJson([i \in 1..Len(Cases) |-> [reads |-> Reads1(Cases[i])]]))
+Emit == PrintT(ToJson([i \in 1..Len(Cases) |-> [reads |-> Reads1(Cases[i]), drfails |-> DRFails(Cases[i])]]))
 =============================================================================
